@@ -7,6 +7,9 @@ wrapper-chain analysis); what is recorded/reported is the constrained image
 (typestate over point variables along every path of _Step, as an inductive
 invariant on the best slot); constraints installed mid-run invalidate the
 objective; and_ falls back to the bounds in all six coupling sites.
+Round 6: wrap_penalty calls the cost before the penalty on their shared working
+copy, on every path; an ensemble reports its best member's own (constrained)
+best point.
 NOT decided: that an arbitrary user constraint is satisfied by an arbitrary
 vector; idempotence/determinism are the property's premises; clip=False mode.
 """
@@ -377,3 +380,62 @@ def best_survives_a_change_of_constraints(ctx):
 def reported_best_satisfies_the_constraints_in_force(ctx):
     """the reported solution satisfies the constraints in force also when they were installed between iterations: a solver that stores an all-time best re-validates it when the constraints change"""
     best_survives_a_change_of_constraints(ctx)
+
+
+@rule('C03.g', min_instances=3)
+def an_ensemble_reports_its_best_members_constrained_point(ctx):
+    """the solution a solver reports satisfies the constraints wherever the run is stopped: an ensemble reports the best member's own bestSolution (a constrained, evaluated point) together with that member's energy - never a fall-back to population[0] (for a differential-evolution member that is an arbitrary candidate) - on every path on which the scan found a member (shared with C09.a / C01.k)"""
+    from .c09 import reduction
+    reduction(ctx)
+
+
+def _calls_in_evaluation_order(node):
+    """Call nodes of an expression / statement in the order python evaluates them (operands left to right, arguments before the call)"""
+    out = []
+
+    def rec(n):
+        if isinstance(n, (ast.Lambda, ast.FunctionDef)):
+            return
+        for ch in ast.iter_child_nodes(n):
+            rec(ch)
+        if isinstance(n, ast.Call):
+            out.append(n)
+    rec(node)
+    return out
+
+
+@rule('C03.h', min_instances=2)
+def the_cost_sees_the_constrained_vector_before_the_penalty_does(ctx):
+    """hard constraints hold at every evaluation: wrap_penalty hands cost and penalty ONE working copy of the (constrained) candidate; penalties built with mystic.symbolic work in place, so the cost has to be called first - on every path, also when the penalty is infinite (a short-cut that evaluates the penalty first and skips the cost on inf lets the cost see the vector the penalty rewrote, and makes the evaluation count depend on the penalty)"""
+    f = ctx.func('mystic.tools:wrap_penalty.function_wrapper')
+    outer = ctx.func('mystic.tools:wrap_penalty')
+    cf, pf = outer.args()[:2]
+
+    def rel(n):
+        return isinstance(n, ast.Return) or (isinstance(n, ast.Call) and isinstance(n.func, ast.Name) and n.func.id in (cf, pf))
+    paths = [p for p in enumerate_paths(f.node, relevant=rel, unroll=(0, 1)) if p.exit != 'raise']
+    ctx.stats['paths_enumerated'] += len(paths)
+    ctx.need(paths, 'wrap_penalty.function_wrapper has no returning path')
+    skipped = wrong_order = None
+    for p in paths:
+        order = []
+        for e in p.events:
+            if e[0] in ('stmt', 'partial'):
+                for c in _calls_in_evaluation_order(e[1]):
+                    if isinstance(c.func, ast.Name) and c.func.id in (cf, pf):
+                        order.append((c.func.id, unparse(c.args[0]) if c.args else ''))
+            elif e[0] == 'cond':
+                for c in _calls_in_evaluation_order(e[1]):
+                    if isinstance(c.func, ast.Name) and c.func.id in (cf, pf):
+                        order.append((c.func.id, unparse(c.args[0]) if c.args else ''))
+        names = [o[0] for o in order]
+        if cf not in names:
+            skipped = skipped or p
+        elif pf in names and names.index(pf) < names.index(cf) and order[names.index(pf)][1] == order[names.index(cf)][1]:
+            wrong_order = wrong_order or p
+    ctx.check(skipped is None, 'wrap_penalty#cost-on-every-path', 'the cost is evaluated on every path (%d paths)' % len(paths),
+              'wrap_penalty can return without calling the cost (path %s): the number of evaluations - and what the evaluation monitor holds - depends on the penalty' % (skipped.describe(4) if skipped else ''),
+              f, skipped.exit_node if skipped is not None and skipped.exit_node is not None else f.node)
+    ctx.check(wrong_order is None, 'wrap_penalty#cost-first', 'the cost is called before the penalty on their shared working copy',
+              'wrap_penalty calls the penalty before the cost on the same working copy: a penalty that works in place (every penalty generated by mystic.symbolic does) rewrites the vector, and the cost is then '
+              'evaluated at a point that does not satisfy the hard constraints', f, f.node)
